@@ -241,6 +241,7 @@ func checkC13(p *core.Program, r *core.Report) {
 		"Decides race-freedom of in-repo code on shared state under every interleaving. Not decided: isolation inside groth16.Prove with a shared key and constraint system (trusted), nor that each response is the right one (C07/C09)."
 	r.Rule("O13.1", "no unsynchronised write through a reference into shared memory is reachable from the /prove handler")
 	r.Rule("O13.2", "writers of package-level variables are inventoried, unreachable from the handler, and cannot run after server.Run")
+	r.Rule("O13.5", "an object obtained from a sync.Pool is reset (Reset method or whole-object assignment) before any other use")
 	r.Rule("O13.3", "an object obtained from a sync.Pool is not used after it was returned to the pool")
 	r.Rule("O13.4", "every blocking acquire on a channel/lock shared by requests (semaphore send/receive, Lock) reachable from the handler is followed by its complementary operation on every path to every exit, error returns included; no request waits on a shared WaitGroup/Cond")
 	r.Trusted = append(r.Trusted, "Go memory model", "groth16.Prove is safe for concurrent use with a shared proving key and constraint system", "zerolog.Logger is safe for concurrent use", "net/http gives every request its own ResponseWriter and Request")
@@ -503,6 +504,66 @@ func checkPoolUse(p *core.Program, r *core.Report, reach map[*ssa.Function]*ssa.
 								deferred = true
 							}
 						}
+					}
+				}
+				// O13.5: what comes out of the pool still holds the previous request's contents; it is reset (a Reset method, or
+				// an assignment of the whole object) before anything else touches it. A decoder that only *overwrites the
+				// fields present in this request's document* (encoding/json) otherwise answers this request with the absent
+				// fields of an earlier one.
+				{
+					var resets, others []ssa.Instruction
+					for _, bb := range fn.Blocks {
+						for _, i2 := range bb.Instrs {
+							if v, isV := i2.(ssa.Value); isV && alias[v] {
+								continue
+							}
+							uses := false
+							for _, op := range i2.Operands(nil) {
+								if op != nil && *op != nil && alias[*op] {
+									uses = true
+								}
+							}
+							if !uses {
+								continue
+							}
+							isReset := false
+							switch x := i2.(type) {
+							case *ssa.Store:
+								isReset = alias[x.Addr]
+							case *ssa.Call:
+								if sc := x.Common().StaticCallee(); sc != nil && len(x.Common().Args) > 0 && alias[x.Common().Args[0]] && (sc.Name() == "Reset" || sc.Name() == "reset" || sc.Name() == "Clear") {
+									isReset = true
+								}
+								if sc := x.Common().StaticCallee(); sc != nil && sc.String() == "(*sync.Pool).Put" {
+									continue
+								}
+							case *ssa.Defer:
+								continue
+							}
+							if isReset {
+								resets = append(resets, i2)
+							} else {
+								others = append(others, i2)
+							}
+						}
+					}
+					okReset := len(others) == 0
+					for _, rs := range resets {
+						all := true
+						for _, o := range others {
+							if !instrBefore(rs, o) {
+								all = false
+							}
+						}
+						if all {
+							okReset = true
+						}
+					}
+					cn5 := core.FuncName(fn) + ": pooled object is reinitialised before use"
+					if okReset {
+						r.OK("O13.5", cn5, p.Pos(c.Pos()), "a Reset / whole-object assignment precedes every other use (%d use(s))", len(others))
+					} else {
+						r.Violation("O13.5", cn5, p.Pos(c.Pos()), "the object taken from the pool is used (first at %s) without being reset: it still holds what an earlier request left in it, so fields or bytes this request does not overwrite are answered from another request's data", p.Pos(others[0].Pos()))
 					}
 				}
 				cn := core.FuncName(fn) + ": object from sync.Pool"
